@@ -83,11 +83,16 @@ def build(case):
         empty = {"tinp": np.array([], dtype="datetime64[ns]"), "zinp": np.array([], dtype="float64"),
                  "lat": np.array([], dtype="float64"), "lon": np.array([], dtype="float64")}
         ax = {a: (src[a][idx] if case["axes"][a] else empty[a]) for a in empty}
+        data = src[stream][idx]
+        if case.get("readonly"):
+            # pandas (copy-on-write) hands out read-only views; collecting must not write into them
+            for a in list(ax.values()) + [data, idx]:
+                a.flags.writeable = False
         out.append(ContextResult(stream_id=stream,
                                  results=[CallResult(package=mod, test=test,
                                                      function=getattr(mods[mod], test, None) or getattr(qartod, test),
                                                      results=np.array(e["flags"], dtype=e["dtype"]))],
-                                 subset_indexes=idx, data=src[stream][idx], **ax))
+                                 subset_indexes=idx, data=data, **ax))
     return out, src
 
 
@@ -196,7 +201,7 @@ def check_collect(case, rec):
     perm = list(case["order"]) != sorted(case["order"])
     labels = [lab for lab, on in (("multi_context_key", multi), ("empty_group", empty), ("all_covering_group", allc),
                                   ("absent_axes", absent), ("non_identity_order", perm), ("no_results", not emitted),
-                                  ("n0", n == 0)) if on]
+                                  ("n0", n == 0), ("readonly_arrays", case.get("readonly"))) if on]
     rec.note(multi or empty or allc or absent or perm, labels)
     ident = list(range(len(emitted)))
     orders = [("identity", ident), ("given", list(case["order"])), ("reversed", ident[::-1])]
@@ -213,6 +218,7 @@ def check_collect(case, rec):
 @st.composite
 def collect_case_thorough(draw, tier="quick"):
     c = draw(collect_case(tier))
+    c["readonly"] = draw(st.booleans())
     c["all_perms"] = tier == "thorough"
     return c
 
